@@ -157,6 +157,7 @@ impl<'a, M: RawMutex + 'static, A: RingBuf<Item = Tagged> + 'static> Ctx<'a, M, 
 
 fn run_m<M: RawMutex + 'static, A: RingBuf<Item = Tagged> + 'static>(cfg: &Cfg, ops: &[Op], run: &mut Run) {
     tls::reset_history();
+    tls::set_shared_b(cfg.sw == 1);
     payload::reset();
     let shared = cfg.flavour >= FL_SHARED;
     let cap = cfg.x as usize;
@@ -178,7 +179,12 @@ fn run_m<M: RawMutex + 'static, A: RingBuf<Item = Tagged> + 'static>(cfg: &Cfg, 
         };
         Chan::S { tx: RefCell::new(vec![tx]), rx: RefCell::new(vec![rx]) }
     } else {
-        Chan::B(GenericChannel::with_capacity(cap))
+        // an ArrayBuf has its capacity in its type: the parking_lot flavour goes through `new()`
+        if cfg.y == BUF_ARRAY && cfg.flavour == FL_SYNC {
+            Chan::B(GenericChannel::new())
+        } else {
+            Chan::B(GenericChannel::with_capacity(cap))
+        }
     };
     let k = cfg.k as usize;
     let mut c: Ctx<'_, M, A> = Ctx {
@@ -778,7 +784,7 @@ fn step<M: RawMutex + 'static, A: RingBuf<Item = Tagged> + 'static>(c: &mut Ctx<
                 if !run.allow_probe {
                     run.noops += 1;
                 } else {
-                    let wid = c.stream.wid as usize * 2 + op.a as usize;
+                    let wid = c.stream.waker_id_for(op.a);
                     let waker = make_waker(wid);
                     let mut cx = Context::from_waker(&waker);
                     let fut = c.stream.fut.as_mut().unwrap();
